@@ -51,6 +51,11 @@ BASES['v8'] = dict(state=lambda: np.arange(1., 9.),
 # the same bases with every sensitivity value of order 1e-9 (judged relative to 1e-9)
 BASES['v4t'] = dict(BASES['v4'], slices={k: BASES['v4']['slices'][k] for k in ('a', 'f', 'n', 'r')})
 BASES['m23t'] = dict(BASES['m23'], slices={k: BASES['m23']['slices'][k] for k in ('t', 'f', 'x')})
+# the same vector with non-finite entries (inf, nan) in every sensitivity array that is assigned or added: what an
+# overflowed sensitivity sweep leaves behind; reset has to clear them like any other value
+BASES['v4n'] = dict(BASES['v4'], slices={k: BASES['v4']['slices'][k] for k in ('a', 'f', 'R')})
+BASES['c3n'] = dict(BASES['c3'], slices={k: BASES['c3']['slices'][k] for k in ('a', 'f')})
+NONFINITE = ('v4n', 'c3n')
 UNIT = {'v4t': 1e-9, 'm23t': 1e-9}
 SEED_CONST = [0.0, 0.5, -1.25, 2.0]
 
@@ -65,10 +70,15 @@ def value(kind, what, shape, seed, cplx):
     v = base + 0.25 * np.arange(n).reshape(shape)
     if cplx:
         v = v + 1j * (0.5 + 0.125 * np.arange(n).reshape(shape))
+    if kind in NONFINITE and what in ('setG', 'add'):
+        v = v.copy()
+        v.flat[0] = np.inf
+        if n > 2:
+            v.flat[2] = np.nan
     return v * unit
 
 
-REDUCED = {'v4': ['a', 'f', 'n', 'R'], 'm23': ['t', 'f', 'x', 'X'], 'c3': ['a', 'f'], 't222': ['b', 'x'], 's': [], 'dy': [], 'z0': [],
+REDUCED = {'v4n': ['a', 'f', 'R'], 'c3n': ['a', 'f'], 'v4': ['a', 'f', 'n', 'R'], 'm23': ['t', 'f', 'x', 'X'], 'c3': ['a', 'f'], 't222': ['b', 'x'], 's': [], 'dy': [], 'z0': [],
            'v4t': ['a', 'f', 'n'], 'm23t': ['t', 'f', 'x'], 'v8': ['g', 'h']}
 
 
@@ -102,6 +112,9 @@ def alphabet(kind, reduced=False):
             if t == 'base' and v == 'scalar':
                 continue
             ops.append(['setG', t, v])
+        if t != 'base' and kind in ('v4', 'c3', 'v8', 'v4n') and np.ndim(BASES[kind]['state']()[BASES[kind]['slices'][t][0]]) == 1 \
+                and len(BASES[kind]['slices'][t]) == 1:
+            ops.append(['setG', t, 'other_part'])
         for how in ('fresh', 'none', 'twice', 'shared', 'zero'):
             ops.append(['add', t, how])
         if t == 'base':
@@ -175,6 +188,16 @@ class World:
             else:
                 self.sl[t].state = v if not isinstance(v, np.ndarray) else np.array(v)
                 self.m.sl_set_state(self.ref[t], v)
+        elif kind == 'setG' and arg == 'other_part':
+            # the slice's sensitivity is assigned a VIEW of other entries of the base signal's own sensitivity (mirroring
+            # or copying between parts of one signal); enabled once the base holds an array sensitivity
+            g = self.sig.sensitivity
+            if self.m.G is None or not isinstance(g, np.ndarray) or len(shp) != 1 or g.ndim != 1:
+                return
+            n = shp[0]
+            want = np.array(self.m.G)[::-1][:n].copy()
+            self.sl[t].sensitivity = g[::-1][:n]
+            self.m.sl_set_sens(self.ref[t], want)
         elif kind == 'setG':
             v = None if arg == 'none' else value(self.kind, 'setG', shp if arg == 'array' else None, self.seed, self.cplx)
             if t == 'base':
@@ -191,7 +214,7 @@ class World:
             what = {'fresh': 'add', 'twice': 'twice', 'shared': 'shared', 'zero': 'add'}[arg]
             v = value(self.kind, what, shp, self.seed, self.cplx)
             if arg == 'zero':      # an all-zero contribution is a contribution (it allocates the sensitivity)
-                v = v * 0
+                v = np.zeros_like(v) if isinstance(v, np.ndarray) else v * 0
             if isinstance(v, np.ndarray) and v.ndim == 0 and self.kind != 'z0':
                 v = v.item()
             obj = (as_dyad(v) if self.dyad else np.array(v)) if (isinstance(v, np.ndarray) or self.kind == 'z0') else v
@@ -240,6 +263,18 @@ class World:
             return f'{what}:kind'
         if exact:
             ok = bool((g == w).all())
+        elif self.kind in NONFINITE:
+            # entries that are not finite in the model must be not finite in the same way (component-wise nan / +-inf);
+            # all other entries as usual
+            gc, wc = np.asarray(g, dtype=complex), np.asarray(w, dtype=complex)
+            ok = True
+            for gp, wp in ((gc.real, wc.real), (gc.imag, wc.imag)):
+                fin = np.isfinite(wp)
+                ok = ok and bool(np.array_equal(np.isnan(gp), np.isnan(wp)))
+                ok = ok and bool(np.array_equal(gp[np.isinf(wp)], wp[np.isinf(wp)]))
+                ok = ok and bool(np.all(np.isfinite(gp[fin])))
+                if ok:
+                    ok = bool((np.abs(gp[fin] - wp[fin]) <= 1e-9 * np.maximum(np.abs(wp[fin]), 1.0)).all())
         else:
             d = np.abs(g - w)
             ok = bool((d <= 1e-9 * np.maximum(np.abs(w), UNIT.get(self.kind, 1.0))).all())   # ALG class, elementwise scale
@@ -397,7 +432,7 @@ def generate(tier, seed):
                                                             (5, True)]
     for d, red in plan:
         yield {'__level__': f"depth{d}/{'reduced' if red else 'full'}"}
-        for kind in ('s', 'z0', 'dy', 'c3', 'v4', 'v4t', 'v8', 'm23', 'm23t', 't222'):
+        for kind in ('s', 'z0', 'dy', 'c3', 'v4', 'v4t', 'v4n', 'c3n', 'v8', 'm23', 'm23t', 't222'):
             for ws in (False, True):
                 al = alphabet(kind, red)
                 if d <= 3:
